@@ -7,5 +7,4 @@ CONSTANTS
   MaxInject = 1
   Spoof = FALSE
   RestoreAtTop = TRUE
-CONSTRAINTS GenDeep
 INVARIANTS ReplyIffValid ExactlyOne ToSender ReplyHeader NeverAnswersReply BoundedTraffic HistoryIndependence
